@@ -208,7 +208,12 @@ class SeqGen:
         if t is None:
             return
         k = r.choice([1, 1, 1, 2, 3, 5, 0]) if not self.p.get("big_batches") else r.choice([1, 2, 40, 120])
-        self.emit("pub %s %s" % (hx(t), jl(self.payload() for _ in range(k))))
+        if self.p.get("big_batches") and r.chance(1, 30):
+            # a backlog above the 1000 cap (tiny payloads: the volume is not the point)
+            k = r.choice([1001, 1100, 2001])
+            self.emit("pub %s %s" % (hx(t), ",".join(["61"] * k)))
+        else:
+            self.emit("pub %s %s" % (hx(t), jl(self.payload() for _ in range(k))))
         for sn in self.topics.get(self.canon(t), []):
             s = self.subs.get(sn)
             if s:
@@ -502,7 +507,7 @@ DEADLINES = {
     "mod_secs": [0, 1, 2, 9, 10, 11, 30, 599, 600, 601, 2 ** 31 - 1],
     "block_chance": (1, 4),
     "weights": {"csub": 2, "pub": 10, "pull": 16, "ack": 4, "mod": 10, "adv": 22, "stats": 3, "gsub": 2, "lists": 1,
-                "sopen": 1, "sread": 1},
+                "sopen": 2, "sread": 2, "ssend": 5, "sdrop": 1},
 }
 
 NAMESPACE = {
@@ -520,7 +525,7 @@ MALFORMED = {
 
 BATCHES = {
     "projects": ["p1"], "topics": ["t1"], "subs": ["s1", "s2"], "big_batches": True,
-    "max_messages": [1, 2, 3, 39, 40, 41, 999, 1000, 1001, 65535, 65536, 65537, 65538, 2 ** 31 - 1, 0, -1, -65536, 131072],
+    "max_messages": [1, 2, 3, 39, 40, 41, 999, 1000, 1000, 1001, 2000, 3000, 65535, 65536, 65537, 65538, 2 ** 31 - 1, 0, -1, -65536, 131072],
     "stream_max": [1, 2, 3, 40, 1000, 65535, 0],
     "weights": {"csub": 1, "pub": 12, "pull": 14, "ack": 3, "mod": 3, "adv": 5, "stats": 3, "sopen": 3, "sread": 4, "ssend": 1, "sdrop": 1},
 }
@@ -541,11 +546,15 @@ def bigbacklog_case(r):
         left -= k
     ops.append("stats " + hx(sub))
     backlog = n
-    for _ in range(r.range(2, 5)):
+    # always: the limits at and around the 1000 cap and a multiple of it, then random ones
+    fixed = [1000, 1, 2000]
+    for i in range(r.range(4, 6)):
         small = [1, 1, 2, 3, 10, 11, 999, 1000, 1001, (backlog % 65536) or 1, (backlog % 65536) + 1]
         # a limit above 1000 is only cheap for the model (sorted-list tracker) while the wrapped length is small
-        big = [65535, 65536, 65537] if backlog >= 65536 and backlog % 65536 <= 1000 else []
-        mx = r.choice([m for m in small if m <= 1001] + big)
+        big = [65535, 65536, 65537, 3000] if backlog >= 65536 and backlog % 65536 <= 1000 else []
+        mx = fixed[i] if i < len(fixed) else r.choice([m for m in small if m <= 1001] + big)
+        if mx > 1001 and not (backlog >= 65536 and backlog % 65536 <= 1000):
+            mx = 1000
         ops.append("pull %s %d 1" % (hx(sub), mx))
         ops.append("stats " + hx(sub))
         m16 = mx % 65536
